@@ -35,26 +35,29 @@ Definition subst_at (m : mapping) (s : site) (md : mode) (t : rty) : bool :=
 Lemma sweep18_depth1 : sweep (subst_at table18) spines18_1 = true /\ forallb (dom_m table18) spines18_1 = true.
 Proof. vm_compute. split; reflexivity. Qed.
 
+(* the three repaired classes: on the old witnesses the relational oracle now accepts the model's
+   two texts (model = patched code) *)
 Definition w18_prefix : rty := RPath (L "Vec") [RPath (L "Vec") [lf "PathBuf"]].
-Lemma prefix_on_target_refuted :
-  dom_m table18 w18_prefix = true /\ classes18 SReturn MNone table18 w18_prefix = [K18Prefix] /\
+Lemma prefix_on_target_repaired :
+  dom_m table18 w18_prefix = true /\
   emit_type SReturn MNone [] w18_prefix = Some (L "types.PathBuf[][]") /\
-  emit_type SReturn MNone table18 w18_prefix = Some (L "types.string[][]") /\
+  emit_type SReturn MNone table18 w18_prefix = Some (L "string[][]") /\
+  c18_ok true table18 w18_prefix (L "string[][]") (L "types.PathBuf[][]") = true /\
   c18_ok true table18 w18_prefix (L "types.string[][]") (L "types.PathBuf[][]") = false.
 Proof. vm_compute. repeat split; reflexivity. Qed.
 
 Definition w18_tuple : rty := RTuple [lf "i32"; RPath (L "HashMap") [lf "String"; lf "PathBuf"]].
-Lemma tuple_comma_refuted :
-  classes18 SField MNone table18 w18_tuple = [K18TupleComma] /\
-  emit_type SField MNone table18 w18_tuple = Some (L "[number, HashMap<String, PathBuf>]") /\
-  c18_ok true table18 w18_tuple (L "[number, HashMap<String, PathBuf>]") (L "[number, HashMap<String, PathBuf>]") = false.
+Lemma tuple_comma_repaired :
+  emit_type SField MNone table18 w18_tuple = Some (L "[number, Record<string, string>]") /\
+  emit_type SField MNone [] w18_tuple = Some (L "[number, Record<string, PathBuf>]") /\
+  c18_ok true table18 w18_tuple (L "[number, Record<string, string>]") (L "[number, Record<string, PathBuf>]") = true.
 Proof. vm_compute. repeat split; reflexivity. Qed.
 
 Definition w18_result : rty := RPath (L "Result") [RTuple [lf "PathBuf"; lf "i32"]; lf "String"].
-Lemma result_comma_refuted :
-  classes18 SField MNone table18 w18_result = [K18ResultComma] /\
-  emit_type SField MNone table18 w18_result = Some (L "(PathBuf") /\
-  c18_ok true table18 w18_result (L "(PathBuf") (L "(PathBuf") = false.
+Lemma result_comma_repaired :
+  emit_type SField MNone table18 w18_result = Some (L "[string, number]") /\
+  emit_type SField MNone [] w18_result = Some (L "[PathBuf, number]") /\
+  c18_ok true table18 w18_result (L "[string, number]") (L "[PathBuf, number]") = true.
 Proof. vm_compute. repeat split; reflexivity. Qed.
 
 Lemma sweep18_premises_example :
